@@ -29,6 +29,7 @@ from mc.core import Ctx, key_ints, quiet_fds
 LEVEL = "exploration"
 
 OBSERVERS = ["log-rec", "log-console-tb", "progress", "nested"]
+CUSTOM = ["custom-step", "custom-iter"]  # user-defined observers on the public helper bases, passed bare and in a list
 
 
 def digest(tree) -> str:
@@ -54,6 +55,13 @@ def build(c):
         env = _GYM_ENVS["env"]
         pol = learnx.make_policy(learnx.ALGO_POLICY[name], env, 7 + c["hp"])
         return env, pol, learnx.make_algo(name, 1, c["num_steps"])
+    if c["env"] == "sac-pendulum":
+        from lerax.env.classic_control import Pendulum
+        from lerax.wrapper import TimeLimit
+
+        env = TimeLimit(Pendulum(), 20)
+        pol = learnx.make_policy("sac", env, 7, width_size=8, depth=1)
+        return env, pol, learnx.make_algo("SAC", c["num_envs"], 1, buffer_size=256, learning_starts=8, batch_size=16)
     if c["env"] == "tab":
         env = learnx.tiny_env(learnx.ALGO_ACT[name], tl=3)
     elif c["env"] == "tab-noterm":
@@ -73,10 +81,44 @@ def build(c):
 
 
 def make_observers(names, tmpdir, env, pol, total):
-    from lerax.callback import CallbackList, ConsoleBackend, LoggingCallback, ProgressBarCallback, TensorBoardBackend
+    from lerax.callback import (
+        AbstractIterationCallback,
+        AbstractStepCallback,
+        CallbackList,
+        ConsoleBackend,
+        LoggingCallback,
+        ProgressBarCallback,
+        TensorBoardBackend,
+    )
+
+    from lerax.callback.base_callback import EmptyCallbackState, EmptyCallbackStepState
+
+    class CountSteps(AbstractStepCallback):
+        """user-defined pure observer built on the public step-only helper base"""
+
+        def step_reset(self, ctx, *, key):
+            return EmptyCallbackStepState()
+
+        def on_step(self, ctx, *, key):
+            return ctx.state
+
+    class CountIterations(AbstractIterationCallback):
+        """user-defined pure observer built on the public iteration-only helper base"""
+
+        def reset(self, ctx, *, key):
+            return EmptyCallbackState()
+
+        def on_iteration(self, ctx, *, key):
+            return ctx.state
 
     out = []
     for n in names:
+        if n == "custom-step":
+            out.append(CountSteps())
+            continue
+        if n == "custom-iter":
+            out.append(CountIterations())
+            continue
         if n == "log-rec":
             out.append(LoggingCallback(learnx.RecordingBackend(), name="c11"))
         elif n == "log-console-tb":
@@ -93,6 +135,9 @@ def make_observers(names, tmpdir, env, pol, total):
 
 
 _BARS: list = []
+
+
+_LAST: dict = {}
 
 
 def run_once(c, observers, as_list=True):
@@ -119,6 +164,7 @@ def run_once(c, observers, as_list=True):
                     pass
     finally:
         shutil.rmtree(tmp, ignore_errors=True)
+    _LAST["leaves"] = learnx.leaves_np(out)
     return digest(out), before, digest(pol), digest(eqx.filter(pol, eqx.is_array)) == digest(eqx.filter(out, eqx.is_array))
 
 
@@ -146,13 +192,16 @@ def clause_observers(cases, ctx: Ctx):
             again = run_once(c, [])[0]
             if again != base:
                 out.append((ci, "C11/not-reproducible/same-process", f"{desc}: two runs with identical inputs returned different parameters"))
-            _BASE[bk] = base
-        base = _BASE[bk]
+            _BASE[bk] = (base, _LAST["leaves"])
+        base, base_leaves = _BASE[bk]
         if c["observers"]:
             got = run_once(c, c["observers"], c.get("as_list", True))[0]
             ctx.guard("observer-runs")
             if got != base:
-                out.append((ci, "C11/observer-changes-result/" + "+".join(c["observers"]), f"{desc}: attaching {c['observers']} (as_list={c.get('as_list', True)}) changed the trained policy"))
+                diff = max(float(np.abs(a.astype(np.float64) - b.astype(np.float64)).max()) if a.size else 0.0 for a, b in zip(_LAST["leaves"], base_leaves))
+                scale = "rounding-level" if diff < 1e-5 else "substantive"
+                out.append((ci, f"C11/observer-changes-result/{c['algo']}/{scale}/" + "+".join(c["observers"]),
+                            f"{desc}: attaching {c['observers']} (as_list={c.get('as_list', True)}) changed the trained policy (max |difference| over parameters {diff:.3g})"))
         ctx.outcome("trained", base)
         if ci % 8 == 7:
             jax.clear_caches()  # every observer set is a fresh compilation of learn(); bound the worker's memory
@@ -221,6 +270,13 @@ def explore(ctx: Ctx):
                             if sub:
                                 ctx.nontriv((a, env, hp, k, tuple(sub), as_list))
                 kcases.append(dict(base, keys=keys, observers=[]))
+        for sub in CUSTOM:  # user-defined observers on the public helper bases: bare and inside a list
+            for as_list in (False, True):
+                cases.append(dict(algo=a, env="tab", hp=0, num_envs=E, num_steps=T, total=total, key=keys[0], observers=[sub], as_list=as_list))
+                ctx.nontriv((a, "tab", 0, keys[0], (sub,), as_list))
+        if a == "SAC":  # a longer SAC run (64 steps, batch 16): long enough for compiler-level differences to surface
+            for sub in ([], ["log-rec"], ["progress"], ["custom-step"]):
+                cases.append(dict(algo=a, env="sac-pendulum", hp=0, num_envs=2, num_steps=1, total=64, key=keys[0], observers=sub, as_list=True))
         if a in ("PPO", "DQN"):  # side-effecting environment: Gymnasium env behind GymToLeraxEnv (single environment only)
             for sub in ([], ["log-rec"]):
                 cases.append(dict(algo=a, env="gymtwin", hp=0, num_envs=1, num_steps=4, total=13, key=keys[0], observers=sub, as_list=True))
